@@ -122,6 +122,7 @@ func setupUniverse(timeT types.Type) {
 	generic1("capof", func(tp *types.TypeParam) types.Type { return it })
 	generic1("lenof", func(tp *types.TypeParam) types.Type { return it })
 	generic1("every", func(tp *types.TypeParam) types.Type { return tp })
+	generic1("lastreadof", func(tp *types.TypeParam) types.Type { return tp })
 	{
 		// hastype(x, y): the dynamic type of the interface value x is the (static) type of y
 		ta := types.NewTypeParam(types.NewTypeName(token.NoPos, nil, "A", nil), anyT)
@@ -166,6 +167,9 @@ func setupUniverse(timeT types.Type) {
 		types.Universe.Insert(types.NewFunc(token.NoPos, nil, n, types.NewSignatureType(nil, nil, nil, nil, types.NewTuple(v("", bt)), false)))
 	}
 	types.Universe.Insert(types.NewFunc(token.NoPos, nil, "calls", types.NewSignatureType(nil, nil, nil, types.NewTuple(v("name", types.Typ[types.String])), types.NewTuple(v("", it)), false)))
+	for _, n := range []string{"lastreadn", "lastreadwant"} {
+		types.Universe.Insert(types.NewFunc(token.NoPos, nil, n, types.NewSignatureType(nil, nil, nil, nil, types.NewTuple(v("", it)), false)))
+	}
 	types.Universe.Insert(types.NewFunc(token.NoPos, nil, "iter", types.NewSignatureType(nil, nil, nil, nil, types.NewTuple(v("", it)), false)))
 	for _, n := range []string{"floordiv", "floormod"} {
 		types.Universe.Insert(types.NewFunc(token.NoPos, nil, n, types.NewSignatureType(nil, nil, nil, types.NewTuple(v("a", mathintType), v("b", mathintType)), types.NewTuple(v("", mathintType)), false)))
